@@ -29,14 +29,36 @@ def _freeze_value(x):
         return x
 
 
+def _type_key(x):
+    # 2, 2.0 and True are equal and hash alike, but they are different arguments: the types of all scalar leaves
+    # become part of the cache key
+    if isinstance(x, tuple):
+        return tuple(_type_key(x) for x in x)
+    elif isinstance(x, frozendict.frozendict):
+        return tuple(_type_key(v) for v in x.values())
+    elif isinstance(x, bool | int | float | complex | np.generic):
+        return type(x)
+    else:
+        return None
+
+
 def _freeze_args(func):
     @functools.wraps(func)
     def func_frozen(*args, **kwargs):
         args = [_freeze_value(a) for a in args]
         kwargs = {k: _freeze_value(v) for k, v in kwargs.items()}
-        return func(*args, **kwargs)
+        typekey = (tuple(_type_key(a) for a in args), tuple(_type_key(v) for v in kwargs.values()))
+        return func(*args, _typekey=typekey, **kwargs)
 
     return func_frozen
+
+
+def _ignore_typekey(func):
+    @functools.wraps(func)
+    def func_without_typekey(*args, _typekey=None, **kwargs):
+        return func(*args, **kwargs)
+
+    return func_without_typekey
 
 
 def _with_retrace_warning(func):
@@ -97,6 +119,7 @@ def _with_retrace_warning(func):
 # 2. warns if there are more than EINX_WARN_ON_RETRACE cache failures from the same call site
 def lru_cache(func):
     func = _with_retrace_warning(func)
+    func = _ignore_typekey(func)
 
     if max_cache_size > 0:
         func = functools.lru_cache(maxsize=max_cache_size if max_cache_size > 0 else None)(func)
